@@ -210,15 +210,25 @@ func ruleP5c(c *Ctx) {
 	// processGraphPattern: processClause for every clause
 	if fn := c.mustFunc("bql/planner", "queryPlan.processGraphPattern"); fn != nil {
 		fi := c.fi(fn)
+		// the call to processClause: in the clause loop itself, or unconditionally inside a same-package helper that the
+		// loop calls for each clause (pc is then the call of that helper)
 		var pc ssa.Instruction
-		allInstrs(fn, func(in ssa.Instruction) {
-			if call, ok := in.(*ssa.Call); ok && call.Call.StaticCallee() != nil && fnName(call.Call.StaticCallee()) == "processClause" {
-				pc = in
+		argTerm, inHelperOK := "", true
+		walkHelpers(fn, 2, func(inFn *ssa.Function, in ssa.Instruction, top ssa.Instruction) {
+			if call, ok := in.(*ssa.Call); ok && call.Call.StaticCallee() != nil && fnName(call.Call.StaticCallee()) == "processClause" && len(call.Call.Args) > 2 {
+				pc = top
+				argTerm = c.term(call.Call.Args[2])
+				if inFn != fn {
+					hfi := c.fi(inFn)
+					inHelperOK = len(inFn.Blocks) > 0 && hfi.postDominates(in.Block(), inFn.Blocks[0])
+				}
 			}
 		})
 		key := "processGraphPattern processes every clause"
 		if pc == nil {
 			c.bad(key, fn.Pos(), "no call to processClause")
+		} else if !inHelperOK {
+			c.bad(key, pc.Pos(), "the helper called for each clause does not call processClause on every path")
 		} else {
 			// every way round the clause loop passes through processClause: each back edge into a block that dominates the
 			// call comes from a block the call dominates
@@ -241,8 +251,7 @@ func ruleP5c(c *Ctx) {
 					}
 				}
 			}
-			arg := c.term(pc.(*ssa.Call).Call.Args[2])
-			okArg := strings.Contains(arg, ".clauses[")
+			okArg := strings.Contains(argTerm, ".clauses[")
 			c.check(skip == "" && okArg && inLoop(fi, pc.Block()), key, pc.Pos(), "processClause(p.clauses[i]) on every iteration, unconditionally", "an iteration of the clause loop can end (at "+skip+") without calling processClause (or the call is not given the loop's clause): a clause of the pattern — e.g. an OPTIONAL one judged 'unused' — is never joined, which changes how often each solution appears")
 		}
 	}
